@@ -174,6 +174,13 @@ static void checkSystem(const Sys& A, int histDepth)
         rhs.push_back(b);
     }
 
+    // uniformly tiny and huge right-hand sides: the backward error is scale invariant, an absolute threshold is not
+    for (double scl : {1e-30, 1e30}) {
+        std::vector<double> b = rhs.back();
+        for (auto& v : b)
+            v *= scl;
+        rhs.push_back(b);
+    }
     std::vector<double> t1(n), t2(n);
     // (a) every right-hand side on ONE solver object, in sequence: first solve factorises, later ones reuse
     SymmetricTridiagonalSolver<double> S(n);
@@ -213,7 +220,7 @@ static void checkSystem(const Sys& A, int histDepth)
     }
     // (c) histories: repeat solves in every order of length <= histDepth over {rhs0, rhs_last}; results must be
     //     bit-identical to the first time that right-hand side was solved
-    int ids[2] = {0, (int)rhs.size() - 1};
+    int ids[2] = {0, (int)rhs.size() - 3};
     for (int len = 1; len <= histDepth; len++) {
         for (int code = 0; code < (1 << len); code++) {
             g_hist++;
